@@ -16,6 +16,7 @@ Oracle: file trees.  After input staging every input directive's target (path
         missing source fails that task (final state FAILED) and no other.
 """
 import os
+import sys
 import shutil
 
 from hypothesis import strategies as st
@@ -171,6 +172,8 @@ def cases(draw):
                       'in': ins, 'out': outs, 'outcome': outcome,
                       'soe': draw(st.booleans())})
     case = {'tasks': tasks}
+    if draw(st.integers(0, 3)) == 0:
+        case['racing_mkdir'] = True
     if draw(st.integers(0, 3)) == 0:
         # absolute paths (and absolute task sandboxes) live on another file system than the
         # sandbox hierarchy, as node-local scratch does
@@ -476,9 +479,26 @@ def run_case(case):
         return res
     root = boot.fresh_dir('c11.')
     box  = []
+    real_makedirs = os.makedirs
+    if case.get('racing_mkdir'):
+        # several stagers (agent staging components, client and agent on a shared file system) work
+        # at the same time: whenever this one is about to create a directory, another one has just
+        # created it
+        def makedirs(path, mode=0o777, exist_ok=False):
+            p = os.path.abspath(path)
+            caller = sys._getframe(1).f_code.co_filename
+            # (only directory creation done by the package / radical.utils: the standard library's
+            # tarfile has a check-then-create window of its own)
+            if 'radical' in caller and not os.path.isdir(p) and \
+                    (p.startswith(root) or p.startswith('/dev/shm/rpverif.')):
+                real_makedirs(p, exist_ok=True)
+            return real_makedirs(path, mode, exist_ok)
+        os.makedirs = makedirs
+        res.label('directories_created_concurrently')
     try:
         _run(case, res, root, box)
     finally:
+        os.makedirs = real_makedirs
         for p in box:
             p.close()
         shutil.rmtree(root, ignore_errors=True)
